@@ -2,6 +2,18 @@ HOOK_COMMITS = ["0cc1f16"]
 NOTES = "All checks: bin/check <ID> --tier quick|thorough [--replay file]; exit 0/1/2 (2 = TOOL-ERROR). See DESIGN.md."
 NOT_APPLICABLE = {}
 CHECKS = {
+    "C04": {
+        "text": "Builder.tla transcribes the gate builder (constant folding, gate cache, negation map, every XOR/AND rewrite rule in code order, pruning and renumbering) as a state machine; TLC checks ResponseSound, AppendOnly, BuildPreservesOutputs over all request sequences in the bound for both cache modes. Every request history of the bound, plus simulated longer histories with macro requests, is replayed into the real CircuitBuilder and the built circuit is compared with the literal truth tables; random 50-400-request sequences recorded from the real builder are validated step by step by Trace_Builder.tla; corpus programs compiled with de-duplication on/off are compared (Trace_OnOff.tla).",
+        "design_ref": "DESIGN.md §5 C04",
+        "note": "Bounds: design model 2 inputs <=3-5 requests, 3 inputs <=3-4; replay exhaustive for 2 inputs/3 requests, sampled beyond; truth tables over <=4 inputs. Trusted: verif_hooks wrapper (thin delegation), harness replay loop, TLC.",
+        "technique": "TLA+ state machine of the builder model-checked by TLC; TLC-generated request histories replayed into the real builder; TLC trace validation of recorded request sequences",
+    },
+    "C15": {
+        "text": "BuildShape (no dead gates, no AND with constant/equal operands, no duplicate AND pairs under de-duplication) is checked by TLC as an invariant of Builder.tla's Build over all request sequences of the bound; the circuits the real builder/compiler produce for replayed histories, random sequences, corpus programs and data-movement programs are logged and judged by Trace_Shape.tla, including zero AND gates for movement programs.",
+        "design_ref": "DESIGN.md §5 C15",
+        "note": "Movement programs are a fixed hand-written family (corpus_movement/) plus what later generators add; compiled circuits above a gate cap are not judged (TLC cost). Trusted: circuit JSON conversion, TLC.",
+        "technique": "TLC invariant on the builder design model + TLC trace validation of logged built circuits against shape predicates",
+    },
     "C16": {
         "text": "TLC enumerates every small SSA and register circuit value (ill-formed ones included) and checks, at the design level, that the transcribed validation (Validate.tla) implies safe evaluation on the register/SSA step machines of CircuitSem.tla (invariant ValidImpliesSafe); every enumerated value is then replayed into the real validate()/eval() with the oracle's EvalSafe verdict; validate() must also accept every compiler and converter product of the corpus.",
         "design_ref": "DESIGN.md §5 C16",
